@@ -937,7 +937,8 @@ def impl_normalise_sig(ov, cls):
     """in 'impl' mode a function can only return an object it has at hand: *this or one of its parameters"""
     r = ov["ret"]
     if r.kind == "obj":
-        ok = (cls is not None and r.ref is cls) or any(p.kind == "obj" and p.ref is r.ref for p in ov["params"])
+        # (a pointer or reference to a by-value parameter would dangle)
+        ok = (cls is not None and r.ref is cls) or any(p.kind == "obj" and p.ref is r.ref and (p.mode != 0 or r.mode == 0) for p in ov["params"])
         if r.mode == 0 and (r.ref.get("abstract") or r.ref.get("no_copy")):
             ok = False
         if not ok:
@@ -1031,7 +1032,7 @@ def _body(ent, ov, cls, label, is_method, const):
     elif r.kind == "obj":
         src = None
         for p, n in zip(ov["params"], ov["pnames"]):
-            if p.kind == "obj" and p.ref is r.ref:
+            if p.kind == "obj" and p.ref is r.ref and (p.mode != 0 or r.mode == 0):
                 src = (n, p.mode)
                 break
         if src is None and is_method and (cls is r.ref or r.ref in _ancestors(cls)):
